@@ -2434,6 +2434,13 @@ class PyCdlib:
         if not found_file_entry.is_file():
             raise pycdlibexception.PyCdlibInvalidInput('Can only write out a file')
 
+        if self.eltorito_boot_catalog is not None:
+            if any(id(found_file_entry) == id(rec) for rec in self.eltorito_boot_catalog.dirrecords):
+                recdata = self.eltorito_boot_catalog.record()
+                outfp.write(recdata)
+                utils.zero_pad(outfp, len(recdata), self.logical_block_size)
+                return
+
         if found_file_entry.inode is None:
             raise pycdlibexception.PyCdlibInvalidInput('Cannot write out an entry without data')
 
